@@ -25,6 +25,7 @@ import (
 	"os"
 	"path/filepath"
 	"runtime"
+	"runtime/debug"
 	"strconv"
 	"strings"
 	"testing"
@@ -174,6 +175,102 @@ func c03ValRaw(r *vkit.Rand, maxLen int) []byte {
 	return b
 }
 
+// c03LogUniform draws an integer in [lo, hi] whose logarithm is uniform: every order of
+// magnitude of a length is equally likely.
+func c03LogUniform(r *vkit.Rand, lo, hi int) int {
+	if lo < 1 {
+		lo = 1
+	}
+	if hi <= lo {
+		return lo
+	}
+	x := math.Exp(math.Log(float64(lo)) + r.Float64()*(math.Log(float64(hi)+1)-math.Log(float64(lo))))
+	n := int(x)
+	if n < lo {
+		n = lo
+	}
+	if n > hi {
+		n = hi
+	}
+	return n
+}
+
+// c03Affordable rewrites b in place so that no magic byte of b announces a payload between
+// 1 MiB and the cap (see c03Val: resync allocates and zeroes the announced length of every
+// magic byte of a damaged stretch). Only the most significant length byte of such a candidate
+// is changed; magic bytes stay where they are. The last five bytes are made letters so that
+// the verdict does not depend on what follows b.
+func c03Affordable(r *vkit.Rand, b []byte) []byte {
+	for i := len(b) - 5; i < len(b); i++ {
+		if i >= 0 {
+			b[i] = byte('A' + r.Intn(26))
+		}
+	}
+	for i := 0; i+6 <= len(b); i++ {
+		if b[i] != persistence.MagicByte {
+			continue
+		}
+		if l := binary.LittleEndian.Uint32(b[i+2 : i+6]); l > 1<<20 && l <= persistence.MaxPayloadSize {
+			b[i+5] = byte(0xC0 + r.Intn(0x3F))
+		}
+	}
+	return b
+}
+
+var c03LongModes = []string{"random", "sprinkled", "runs", "allmagic", "headers", "resp", "letters", "zeros"}
+
+// c03LongBytes returns exactly n (>= 6) bytes of "arbitrary binary content" for values and
+// garbage that are longer than anything a reader keeps in one buffer: uniformly random bytes,
+// random bytes with the magic byte sprinkled in at 1..20 %, runs of magic bytes, nothing but
+// magic bytes, plausible headers / checksum-valid non-command frames, RESP text, plain
+// letters, zeros. Never a complete well-formed frame.
+func c03LongBytes(r *vkit.Rand, n int, mode string) []byte {
+	if n < 6 {
+		n = 6
+	}
+	b := make([]byte, 0, n+64)
+	switch mode {
+	case "random":
+		b = r.Bytes(n)
+	case "sprinkled":
+		b = r.Bytes(n)
+		p := vkit.Pick(r, []float64{0.01, 0.05, 0.2})
+		for i := range b {
+			if r.Chance(p) {
+				b[i] = persistence.MagicByte
+			}
+		}
+	case "runs":
+		for len(b) < n {
+			b = append(b, bytes.Repeat([]byte{persistence.MagicByte}, r.Range(1, 40))...)
+			if r.Chance(0.5) {
+				b = append(b, r.Bytes(r.Range(1, 40))...)
+			} else {
+				for k := r.Range(1, 40); k > 0; k-- {
+					b = append(b, byte('a'+r.Intn(26)))
+				}
+			}
+		}
+	case "allmagic":
+		b = bytes.Repeat([]byte{persistence.MagicByte}, n)
+	case "headers":
+		for len(b) < n {
+			b = append(b, c03GarbageRaw(r, r.Range(1, 60), false)...)
+		}
+	case "resp":
+		for len(b) < n {
+			b = append(b, c03ValRaw(r, 200)...)
+		}
+	case "zeros":
+		b = make([]byte, n)
+	default:
+		for len(b) < n {
+			b = append(b, byte('a'+r.Intn(26)))
+		}
+	}
+	return c03Affordable(r, b[:n])
+}
+
 type c03Cmd struct {
 	name string
 	args [][]byte
@@ -182,7 +279,23 @@ type c03Cmd struct {
 func c03GenCmd(r *vkit.Rand, maxArg int) c03Cmd {
 	c := c03Cmd{name: c03Name(r)}
 	na := r.Range(0, 8)
+	tiny := false
+	if r.Chance(0.06) { // argument counts with 2..4 digits (batch records carry thousands of arguments)
+		na = c03LogUniform(r, 9, 3000)
+		tiny = true
+	}
 	for i := 0; i < na; i++ {
+		if tiny && r.Chance(0.9) {
+			switch r.Intn(4) {
+			case 0:
+				c.args = append(c.args, nil)
+			case 1:
+				c.args = append(c.args, []byte{})
+			default:
+				c.args = append(c.args, c03Bytes(r, 3))
+			}
+			continue
+		}
 		switch r.Intn(5) {
 		case 0:
 			c.args = append(c.args, nil)
@@ -208,6 +321,20 @@ func (c c03Cmd) shape() (string, bool) {
 	var sb strings.Builder
 	nontrivial := false
 	fmt.Fprintf(&sb, "n%d:", len(c.name))
+	if len(c.args) > 8 { // many arguments: the shape is the count bucket plus which kinds occur
+		var kinds [3]bool
+		for _, a := range c.args {
+			switch {
+			case a == nil:
+				kinds[0] = true
+			case len(a) == 0:
+				kinds[1] = true
+			default:
+				kinds[2] = true
+			}
+		}
+		return fmt.Sprintf("many:%d:%v", len(strconv.Itoa(len(c.args)+1)), kinds), true
+	}
 	for _, a := range c.args {
 		switch {
 		case a == nil:
@@ -622,9 +749,12 @@ type c03Log struct {
 
 type c03LogOpts struct {
 	minCmds, maxCmds int
-	maxBytes         int  // 0 = unlimited
-	bigValues        bool // some values long enough to push the file over the 8 KB resync chunk
-	badNumeric       bool // include GLINK/GUNLINK records with a non-numeric field
+	maxBytes         int     // 0 = unlimited
+	bigValues        bool    // some values long enough to push the file over the 8 KB resync chunk
+	badNumeric       bool    // include GLINK/GUNLINK records with a non-numeric field
+	longP            float64 // probability that a SET value / filler argument is long: 64..longMax bytes, log-uniform
+	longMax          int
+	longMode         string // "" = drawn per value
 }
 
 // c03GenLog draws 6..30 self-identifying commands.
@@ -671,6 +801,9 @@ func c03GenLog(r *vkit.Rand, o c03LogOpts) []c03Frame {
 						c.args = append(c.args, c03Val(r, 40))
 					}
 				}
+				if o.longP > 0 && r.Chance(o.longP) {
+					c.args = append(c.args, c03LongVal(r, o))
+				}
 				f.payload = []byte(persistence.FormatCommand(c.name, c.args...))
 				f.desc = fmt.Sprintf("#%d filler %q/%d args", i, c.name, len(c.args))
 			case x < 0.12+pSet:
@@ -689,6 +822,9 @@ func c03GenLog(r *vkit.Rand, o c03LogOpts) []c03Frame {
 					m = 6000
 				}
 				f.val = append([]byte(fmt.Sprintf("v%d:", i)), c03Val(r, m)...)
+				if o.longP > 0 && r.Chance(o.longP) {
+					f.val = append([]byte(fmt.Sprintf("v%d:", i)), c03LongVal(r, o)...)
+				}
 				f.payload = []byte(persistence.FormatCommand("SET", []byte(f.key), f.val))
 				f.desc = fmt.Sprintf("#%d SET %q = %s", i, f.key, c03Short(f.val))
 			default:
@@ -723,6 +859,14 @@ func c03GenLog(r *vkit.Rand, o c03LogOpts) []c03Frame {
 		}
 		return frames
 	}
+}
+
+func c03LongVal(r *vkit.Rand, o c03LogOpts) []byte {
+	mode := o.longMode
+	if mode == "" {
+		mode = vkit.Pick(r, c03LongModes)
+	}
+	return c03LongBytes(r, c03LogUniform(r, 64, o.longMax), mode)
 }
 
 // c03WriteLog writes the frames with the real AOF writer and records the frame boundaries
@@ -1150,9 +1294,24 @@ type c03Version struct {
 
 const c03GiB = uint64(1) << 30
 
+// safeOpen calls engine.Open and turns a panic into a message (item (1) of the oracle), so that
+// the witness carries the log, the damage and the stack instead of the bare panic.
+func (TestVerifC03H) safeOpen(opts Options) (e *Engine, err error, panicked string) {
+	defer func() {
+		if p := recover(); p != nil {
+			panicked = fmt.Sprintf("%v\n%s", p, debug.Stack())
+		}
+	}()
+	e, err = Open(opts)
+	return
+}
+
 // c03OpenAndJudge writes the damaged file, opens the engine on it and applies the oracle.
-// It returns "" or the description of the violation, plus what happened.
-func (TestVerifC03H) openAndJudge(ctx *vkit.Ctx, cs *vkit.Case, dir string, lg *c03Log, d *c03Dmg, j c03Judge) (string, string) {
+// It returns "" or the description of the violation, plus what happened. With restart the
+// engine is closed and opened a second time on what the first recovery left behind, and the
+// same oracle is applied again (the damaged bytes are still in the file; recovery itself must
+// not have cut or rewritten anything that makes an untouched frame unreachable).
+func (TestVerifC03H) openAndJudge(ctx *vkit.Ctx, cs *vkit.Case, dir string, lg *c03Log, d *c03Dmg, j c03Judge, restart ...bool) (string, string) {
 	aof := filepath.Join(dir, "kektordb.aof")
 	if err := os.WriteFile(aof, d.data, 0o644); err != nil {
 		cs.Fail("write damaged log: %v", err)
@@ -1162,37 +1321,65 @@ func (TestVerifC03H) openAndJudge(ctx *vkit.Ctx, cs *vkit.Case, dir string, lg *
 	opts.AutoSaveThreshold = 0
 	opts.AofRewritePercentage = 0
 
-	var m0, m1 runtime.MemStats
-	runtime.ReadMemStats(&m0)
-	e, err := Open(opts) // (1) a panic is caught by vkit and recorded as a violation; a hang by the watchdog
-	runtime.ReadMemStats(&m1)
-
-	// (6) bounded allocation
-	alloc := m1.TotalAlloc - m0.TotalAlloc
-	bound := c03GiB*uint64(j.a5+1) + 64<<20
-	if alloc > bound {
-		if e != nil {
-			e.Close()
-		}
-		return fmt.Sprintf("Open allocated %d bytes; bound is 1 GiB x (%d magic bytes in damaged regions + 1) + 64 MiB = %d", alloc, j.a5, bound), "alloc"
+	starts := 1
+	if len(restart) > 0 && restart[0] {
+		starts = 2
 	}
-	if alloc > 16<<20 {
-		ctx.Count("corrupt.opens_allocating_over_16MiB", 1)
-	}
-
-	// (5) refusal to start
-	if err != nil {
-		if len(d.data) > 0 && d.data[0] != persistence.MagicByte {
-			return "", "refused"
+	what := "opened"
+	for s := 1; s <= starts; s++ {
+		pre := ""
+		if s == 2 {
+			pre = "second start on the log as the first recovery left it: "
+			ctx.Count("corrupt.second_starts", 1)
 		}
-		first := "empty file"
-		if len(d.data) > 0 {
-			first = fmt.Sprintf("first byte %#x", d.data[0])
+		var m0, m1 runtime.MemStats
+		runtime.ReadMemStats(&m0)
+		e, err, panicked := c03H.safeOpen(opts) // (1) no panic; a hang is caught by the watchdog
+		runtime.ReadMemStats(&m1)
+		if panicked != "" {
+			return pre + "engine.Open panicked on the damaged log: " + panicked, "panic"
 		}
-		return fmt.Sprintf("Open refused to start (%v) although the file begins with a valid frame marker (%s)", err, first), "refused"
-	}
-	defer e.Close()
 
+		// (6) bounded allocation
+		alloc := m1.TotalAlloc - m0.TotalAlloc
+		bound := c03GiB*uint64(j.a5+1) + 64<<20
+		if alloc > bound {
+			if e != nil {
+				e.Close()
+			}
+			return fmt.Sprintf("%sOpen allocated %d bytes; bound is 1 GiB x (%d magic bytes in damaged regions + 1) + 64 MiB = %d", pre, alloc, j.a5, bound), "alloc"
+		}
+		if alloc > 16<<20 {
+			ctx.Count("corrupt.opens_allocating_over_16MiB", 1)
+		}
+
+		// (5) refusal to start
+		if err != nil {
+			if s == 1 && len(d.data) > 0 && d.data[0] != persistence.MagicByte {
+				return "", "refused"
+			}
+			first := "empty file"
+			if len(d.data) > 0 {
+				first = fmt.Sprintf("first byte %#x", d.data[0])
+			}
+			return fmt.Sprintf("%sOpen refused to start (%v) although the file begins with a valid frame marker (%s)", pre, err, first), "refused"
+		}
+		msg := c03JudgeState(e, lg, j)
+		e.Close()
+		if msg != "" {
+			return pre + msg, what
+		}
+	}
+	return "", what
+}
+
+// c03JudgeState reads the recovered state back and applies items (2)-(4) of the oracle.
+func c03JudgeState(e *Engine, lg *c03Log, j c03Judge) string {
+	msg, _ := c03JudgeState2(e, lg, j)
+	return msg
+}
+
+func c03JudgeState2(e *Engine, lg *c03Log, j c03Judge) (string, string) {
 	// ---- read the state back
 	kv := map[string][]byte{}
 	e.DB.IterateKV(func(p core.KVPair) { kv[p.Key] = p.Value })
@@ -1328,14 +1515,17 @@ func (TestVerifC03H) openAndJudge(ctx *vkit.Ctx, cs *vkit.Case, dir string, lg *
 }
 
 // c03Run evaluates one damaged log and does the bookkeeping.
-func (TestVerifC03H) run(ctx *vkit.Ctx, cs *vkit.Case, dir string, lg *c03Log, d *c03Dmg, group string) {
+func (TestVerifC03H) run(ctx *vkit.Ctx, cs *vkit.Case, dir string, lg *c03Log, d *c03Dmg, group string) c03Judge {
 	if !d.changed {
 		ctx.Count("corrupt.noop_damage_skipped", 1)
-		return
+		return c03Judge{}
 	}
 	j := c03Analyse(lg, d)
+	// every fourth damaged log of the older groups, and every one of the long-log groups, is
+	// started twice (a function of the damage, not of a counter: replays take the same path)
+	restart := group == "longscan" || group == "scanedge" || (len(d.data)+d.firstOrig)%4 == 0
 	cs.Op("%s: %s | file %d->%d bytes, intact %d/%d, intact after damage %d", group, strings.Join(d.desc, "; "), len(lg.base), len(d.data), j.nIntact, len(lg.frames), j.intactAfter)
-	msg, what := c03H.openAndJudge(ctx, cs, dir, lg, d, j)
+	msg, what := c03H.openAndJudge(ctx, cs, dir, lg, d, j, restart)
 	if msg != "" {
 		var fr []string
 		for i, f := range lg.frames {
@@ -1366,6 +1556,7 @@ func (TestVerifC03H) run(ctx *vkit.Ctx, cs *vkit.Case, dir string, lg *c03Log, d
 		}
 		ctx.Distinct(fmt.Sprintf("%s|%s|%s|%s|%d", what, strings.Join(d.kinds, "+"), strings.Join(d.classes, "+"), fb, len(lg.frames)))
 	}
+	return j
 }
 
 func c03ClipN(b []byte, n int) []byte {
@@ -1497,7 +1688,280 @@ func TestVerifC03Corrupt(t *testing.T) {
 			}
 			ctx.Count("corrupt.logs", 1)
 		})
+
+		// ---- long logs, long damaged regions ------------------------------------------------
+		// Values and filler arguments of 64 B .. 48 KB (log-uniform) of arbitrary binary content
+		// (random, magic byte sprinkled / in runs / nothing else, header-like, RESP text, zeros),
+		// and damage whose extent is log-uniform up to 40 KB: the region recovery has to scan
+		// over is longer than any buffer it reads into, and holds magic bytes at every phase.
+		ctx.Group("longscan", ctx.N(48, 300), func(cs *vkit.Case) {
+			r := cs.R
+			o := c03LogOpts{minCmds: 5, maxCmds: 16, badNumeric: badNumeric, longP: 0.15 + 0.35*r.Float64(), longMax: 48 << 10}
+			if r.Chance(0.3) {
+				o.longMode = vkit.Pick(r, c03LongModes)
+			}
+			frames := c03GenLog(r, o)
+			lg := c03H.writeLog(cs, frames)
+			dir := c03DataDir(cs)
+			ctx.Sample("longlog", 1, map[string]any{"frames": c03Descs(lg), "bytes": len(lg.base)})
+			for k := 0; k < ctx.N(10, 16); k++ {
+				d := c03NewDmg(lg.base)
+				nd := vkit.Pick(r, []int{1, 1, 1, 2, 3})
+				for x := 0; x < nd; x++ {
+					c03ApplyLongDamage(r, lg, d, x == nd-1)
+				}
+				j := c03H.run(ctx, cs, dir, lg, d, "longscan")
+				if d.changed {
+					ctx.Count("corrupt.long_damaged_logs", 1)
+					if span := c03DamagedSpan(lg, d, j); span > 8192 {
+						ctx.Count("corrupt.long_damaged_span_over_8KiB", 1)
+					}
+				}
+			}
+			ctx.Count("corrupt.logs", 1)
+		})
+
+		// ---- the distance from the damage to the next untouched frame, swept ----------------
+		// A damaged frame is followed by untouched ones; its size is chosen so that the next
+		// untouched frame begins D bytes after the start of the damaged one (or at absolute file
+		// offset D), for every D in a window around each multiple of 4 KiB (quick; thorough: of
+		// 1 KiB) up to 32 KiB (64 KiB): wherever a block-wise scan draws its block boundaries, a
+		// frame header straddles one, ends on one and begins on one. The damaged payload is
+		// either free of magic bytes or dense with them.
+		step, top, win := 4096, 32768, 8
+		if !ctx.Quick() {
+			step, top, win = 1024, 65536, 16
+		}
+		contents := []string{"letters", "runs", "sprinkled", "allmagic"}
+		nEdge := (top / step) * 2
+		ctx.Group("scanedge", nEdge, func(cs *vkit.Case) {
+			r := cs.R
+			P := (cs.Idx/2 + 1) * step
+			content := "letters"
+			if cs.Idx%2 == 1 {
+				content = contents[1+(cs.Idx/2)%3]
+			}
+			// small frames around the victim
+			nPre := r.Range(1, 3)
+			if r.Chance(0.4) {
+				nPre = 0 // the damaged frame is the first of the file: relative = absolute
+			}
+			// the frame right behind the victim must have an effect that nothing later hides
+			// (a lost filler record or a lost SET of a key that is set again cannot be seen)
+			var small []c03Frame
+			for {
+				small = c03GenLog(r, c03LogOpts{minCmds: 6, maxCmds: 10, badNumeric: badNumeric})
+				if c03Observable(small, nPre) {
+					break
+				}
+			}
+			absolute := nPre > 0 && r.Chance(0.5)
+			dir := c03DataDir(cs)
+			for D := P - win; D <= P+win; D++ {
+				frames := make([]c03Frame, 0, len(small)+1)
+				frames = append(frames, small[:nPre]...)
+				preBytes := 0
+				for _, f := range frames {
+					preBytes += persistence.HeaderSize + len(f.payload)
+				}
+				rel := D
+				if absolute {
+					rel = D - preBytes
+				}
+				victim, ok := c03VictimFrame(r, rel, content)
+				if !ok {
+					ctx.Count("corrupt.scanedge_unreachable_sizes", 1)
+					continue
+				}
+				frames = append(frames, victim)
+				frames = append(frames, small[nPre:]...)
+				lg := c03H.writeLog(cs, frames)
+				v := lg.frames[nPre]
+				if v.end-v.start != rel {
+					cs.Fail("harness: victim frame is %d bytes, wanted %d", v.end-v.start, rel)
+				}
+				d := c03NewDmg(lg.base)
+				bl := len(lg.base)
+				kinds := []string{"crc", "payload_end", "payload_mid", "len_up", "del1"}
+				if nPre > 0 {
+					kinds = append(kinds, "magic")
+				}
+				kind := vkit.Pick(r, kinds)
+				shift := 0
+				switch kind {
+				case "crc":
+					p := v.start + 6 + r.Intn(4)
+					d.set(p, d.data[p]^(1<<uint(r.Intn(8))), bl)
+					d.classes = append(d.classes, "crc")
+				case "payload_end":
+					d.set(v.end-1, d.data[v.end-1]^0x01, bl)
+					d.classes = append(d.classes, "payload_end")
+				case "payload_mid":
+					p := v.start + persistence.HeaderSize + r.Intn(v.end-v.start-persistence.HeaderSize)
+					d.set(p, d.data[p]^(1<<uint(r.Intn(8))), bl)
+					d.classes = append(d.classes, "payload_mid")
+				case "len_up": // the announced length reaches past the end of the file
+					d.set(v.start+4, d.data[v.start+4]|0x80, bl)
+					d.classes = append(d.classes, "len2")
+				case "del1": // one byte lost: everything behind moves up by one
+					d.del(v.start+persistence.HeaderSize+r.Intn(v.end-v.start-persistence.HeaderSize), 1, bl)
+					d.classes = append(d.classes, "payload_mid")
+					shift = -1
+				default:
+					d.set(v.start, 0x00, bl)
+					d.classes = append(d.classes, "magic")
+				}
+				d.kinds = append(d.kinds, "edge_"+kind)
+				d.desc = append(d.desc, fmt.Sprintf("%s damage to the %d byte frame %d at %d (%s content); next untouched frame begins %d bytes after it, at file offset %d", kind, rel, nPre, v.start, content, rel+shift, v.end+shift))
+				j := c03H.run(ctx, cs, dir, lg, d, "scanedge")
+				if d.changed && j.intactAfter > 0 {
+					ctx.Count("corrupt.scanedge_distances", 1)
+					ctx.Distinct(fmt.Sprintf("scanedge|%d|%+d|%s|abs=%v|%s", P, D-P, content, absolute, kind))
+				}
+			}
+			ctx.Count("corrupt.logs", 1)
+		})
 	})
+}
+
+// c03Observable reports whether losing frame i alone would show in the recovered state.
+func c03Observable(frames []c03Frame, i int) bool {
+	switch frames[i].kind {
+	case c03KLink:
+		return true
+	case c03KSet:
+		for k, f := range frames {
+			if k != i && f.kind == c03KSet && f.key == frames[i].key {
+				return false
+			}
+		}
+		return true
+	}
+	return false
+}
+
+// c03VictimFrame builds a SET frame of exactly total bytes (header included) whose value has
+// the given content.
+func c03VictimFrame(r *vkit.Rand, total int, content string) (c03Frame, bool) {
+	digits := func(n int) int { return len(strconv.Itoa(n)) }
+	for pad := 0; pad < 6; pad++ {
+		key := fmt.Sprintf("victim_%04x", r.Intn(1<<16)) + strings.Repeat("_", pad)
+		// HeaderSize + "*3\r\n$3\r\nSET\r\n" + "$K\r\n" key "\r\n" + "$V\r\n" val "\r\n"
+		fixed := persistence.HeaderSize + 13 + 1 + digits(len(key)) + 2 + len(key) + 2 + 1 + 2 + 2
+		for dv := 1; dv <= 6; dv++ {
+			v := total - fixed - dv
+			if v >= 8 && digits(v) == dv {
+				f := c03Frame{kind: c03KSet, key: key}
+				f.val = append([]byte("vv:"), c03LongBytes(r, v-3, content)...)
+				f.payload = []byte(persistence.FormatCommand("SET", []byte(f.key), f.val))
+				f.desc = fmt.Sprintf("victim SET %q = %s", f.key, c03Short(f.val))
+				if persistence.HeaderSize+len(f.payload) != total {
+					return f, false
+				}
+				return f, true
+			}
+		}
+	}
+	return c03Frame{}, false
+}
+
+// c03DamagedSpan is the length of the longest stretch of the damaged file that lies outside
+// untouched frames (what recovery has to scan over in one go).
+func c03DamagedSpan(lg *c03Log, d *c03Dmg, j c03Judge) int {
+	if len(j.intact) == 0 {
+		return 0
+	}
+	covered := make([]bool, len(d.data))
+	pos := map[int32]int{}
+	for p, o := range d.orig {
+		if o >= 0 {
+			pos[o] = p
+		}
+	}
+	for fi, f := range lg.frames {
+		if j.intact[fi] {
+			p0 := pos[int32(f.start)]
+			for p := p0; p < p0+f.end-f.start; p++ {
+				covered[p] = true
+			}
+		}
+	}
+	best, cur := 0, 0
+	for _, c := range covered {
+		if c {
+			cur = 0
+		} else {
+			cur++
+			if cur > best {
+				best = cur
+			}
+		}
+	}
+	return best
+}
+
+// c03ApplyLongDamage applies one damage whose extent is log-uniform between 1 byte and 40 KB
+// at a position drawn uniformly over the bytes of the file (so long frames are hit in
+// proportion to their size) or at a position class of a frame.
+func c03ApplyLongDamage(r *vkit.Rand, lg *c03Log, d *c03Dmg, last bool) {
+	bl := len(lg.base)
+	o := r.Intn(bl)
+	if r.Chance(0.4) {
+		f := lg.frames[r.Intn(len(lg.frames))]
+		o = c03ClassPos(f, vkit.Pick(r, c03Classes), r)
+	}
+	fi, class := c03ClassOf(lg, o)
+	i := d.indexOfOrig(o)
+	if i >= len(d.data) {
+		return
+	}
+	ext := c03LogUniform(r, 1, 40000)
+	mode := vkit.Pick(r, c03LongModes)
+	kind := vkit.Pick(r, []string{"flip", "flip", "flip", "setA5", "overwrite", "overwrite", "insert", "insert", "delete", "delete", "zeroblock", "truncate"})
+	if kind == "truncate" && !last {
+		kind = "delete"
+	}
+	switch kind {
+	case "flip":
+		bit := uint(r.Intn(8))
+		d.set(i, d.data[i]^(1<<bit), bl)
+		d.desc = append(d.desc, fmt.Sprintf("flip bit %d of byte %d (frame %d %s, %d bytes long)", bit, i, fi, class, lg.frames[fi].end-lg.frames[fi].start))
+	case "setA5":
+		d.set(i, 0xA5, bl)
+		if i+6 <= len(d.data) { // keep the fresh candidate affordable
+			if l := binary.LittleEndian.Uint32(d.data[i+2 : i+6]); l > 1<<20 && l <= persistence.MaxPayloadSize && !r.Chance(0.1) {
+				d.set(i+5, d.data[i+5]|0x80, bl)
+			}
+		}
+		d.desc = append(d.desc, fmt.Sprintf("set byte %d to 0xA5 (frame %d %s)", i, fi, class))
+	case "overwrite":
+		g := c03LongBytes(r, ext, mode)
+		d.overwrite(i, g, bl)
+		d.desc = append(d.desc, fmt.Sprintf("overwrite %d bytes at %d (frame %d %s) with %s content %x…", len(g), i, fi, class, mode, c03ClipN(g, 24)))
+	case "insert":
+		g := c03LongBytes(r, ext, mode)
+		d.insert(i, g, bl)
+		d.desc = append(d.desc, fmt.Sprintf("insert %d bytes of %s content at %d (frame %d %s): %x…", len(g), mode, i, fi, class, c03ClipN(g, 24)))
+	case "delete":
+		d.del(i, ext, bl)
+		d.desc = append(d.desc, fmt.Sprintf("delete %d bytes at %d (frame %d %s)", ext, i, fi, class))
+	case "zeroblock": // a lost sector / page: an aligned block of zeros
+		bs := vkit.Pick(r, []int{512, 4096, 8192, 16384})
+		a := i / bs * bs
+		if a == 0 {
+			a = bs // the first byte of the file stays (otherwise: a legitimate refusal, nothing demanded)
+		}
+		if a >= len(d.data) {
+			a = i
+		}
+		d.overwrite(a, make([]byte, bs), bl)
+		d.desc = append(d.desc, fmt.Sprintf("zero the %d byte block at %d", bs, a))
+	case "truncate":
+		d.truncate(i, bl)
+		d.desc = append(d.desc, fmt.Sprintf("truncate at %d (frame %d %s)", i, fi, class))
+	}
+	d.kinds = append(d.kinds, "long_"+kind)
+	d.classes = append(d.classes, class)
 }
 
 func c03Descs(lg *c03Log) []string {
